@@ -659,3 +659,130 @@ func c17R14(ic *IC, r *Report) {
 		r.Errorf("R17.14: only %d functions taking a *build.Context found in package interp", n)
 	}
 }
+
+func init() {
+	ruleText["R17.15"] = "the callers of the constraint evaluator remember no verdict either: a function of package interp that calls a function taking the *build.Context (without taking it itself: parse, importSrc) does not guard that call by a test of a map field keyed by the file name, and stores no element into a map field under a condition on the verdict - a file excluded once is evaluated again when it is met again, because a yaegi:tags comment may have set its tag in between"
+}
+
+// c17R15: round-8 seed. parse kept the names of the excluded files in an interpreter map and
+// returned before evaluating the constraints of a file already known to be excluded.
+func c17R15(ic *IC, r *Report) {
+	info := ic.Info
+	isCtx := func(t types.Type) bool {
+		if p, ok := t.(*types.Pointer); ok {
+			t = p.Elem()
+		}
+		n, ok := t.(*types.Named)
+		return ok && n.Obj().Pkg() != nil && n.Obj().Pkg().Path() == "go/build" && n.Obj().Name() == "Context"
+	}
+	takesCtx := func(sg *types.Signature) bool {
+		for i := 0; i < sg.Params().Len(); i++ {
+			if isCtx(sg.Params().At(i).Type()) {
+				return true
+			}
+		}
+		return false
+	}
+	mapField := func(e ast.Expr) *types.Var {
+		ix, ok := unparen(e).(*ast.IndexExpr)
+		if !ok {
+			return nil
+		}
+		v := selField(info, ix.X)
+		if v == nil {
+			return nil
+		}
+		if _, isMap := v.Type().Underlying().(*types.Map); !isMap {
+			return nil
+		}
+		// keyed by a string (the file name)
+		if b, ok := info.TypeOf(ix.Index).Underlying().(*types.Basic); !ok || b.Kind() != types.String {
+			return nil
+		}
+		return v
+	}
+	n := 0
+	for _, name := range sortedKeys(ic.F) {
+		fi := ic.F[name]
+		if fi.Decl.Body == nil || fi.Obj == nil || takesCtx(fi.Obj.Type().(*types.Signature)) {
+			continue
+		}
+		// calls of an evaluator
+		var evals []*ast.CallExpr
+		ast.Inspect(fi.Decl.Body, func(q ast.Node) bool {
+			c, ok := q.(*ast.CallExpr)
+			if !ok {
+				return true
+			}
+			if f, ok := calleeOf(info, c).(*types.Func); ok && f.Pkg() == ic.Pk.Types {
+				if sg, ok := f.Type().(*types.Signature); ok && takesCtx(sg) {
+					evals = append(evals, c)
+				}
+			}
+			return true
+		})
+		for k, ev := range evals {
+			n++
+			bad := ""
+			path := enclosingPath(fi.Decl.Body, ev)
+			// the statement of the function body (or of the enclosing block) holding the call
+			var holder ast.Stmt
+			var blk *ast.BlockStmt
+			for i := len(path) - 1; i >= 0; i-- {
+				if b, ok := path[i].(*ast.BlockStmt); ok && i+1 < len(path) {
+					if s, ok := path[i+1].(ast.Stmt); ok {
+						blk, holder = b, s
+						break
+					}
+				}
+			}
+			// (a) an earlier statement of that block that leaves under a test of a map field keyed by a string
+			if blk != nil {
+				for _, s := range blk.List {
+					if s == holder {
+						break
+					}
+					ifs, ok := s.(*ast.IfStmt)
+					if !ok {
+						continue
+					}
+					reads := false
+					ast.Inspect(ifs.Cond, func(z ast.Node) bool {
+						if e, ok := z.(ast.Expr); ok && mapField(e) != nil {
+							reads = true
+						}
+						return true
+					})
+					leaves := false
+					for _, b := range ifs.Body.List {
+						switch b.(type) {
+						case *ast.ReturnStmt, *ast.BranchStmt:
+							leaves = true
+						}
+					}
+					if reads && leaves {
+						bad = "the call is skipped when " + types.ExprString(ifs.Cond) + " (" + ic.pos(ifs.Pos()) + ")"
+					}
+				}
+			}
+			// (b) a store into such a map under a condition on the verdict: inside the if statement holding the call
+			if ifs, ok := holder.(*ast.IfStmt); ok {
+				ast.Inspect(ifs.Body, func(z ast.Node) bool {
+					if as, ok := z.(*ast.AssignStmt); ok {
+						for _, l := range as.Lhs {
+							if v := mapField(l); v != nil {
+								bad = "the verdict is recorded in " + types.ExprString(l) + " (" + ic.pos(as.Pos()) + ")"
+							}
+						}
+					}
+					return true
+				})
+			}
+			r.Check(bad == "", "R17.15", fmt.Sprintf("%s/%s#%d/verdict-not-remembered", name, calleeOf(info, ev).Name(), k+1), ic.pos(ev.Pos()), "the constraints are evaluated each time the file is met",
+				name+" remembers the verdict of the build constraints per file name: "+bad+". A yaegi:tags comment evaluated in between (or Options.BuildTags of a later import) changes the verdict of the constraint line, but the file stays excluded")
+		}
+	}
+	if n < 2 {
+		r.Errorf("R17.15: only %d calls of the constraint evaluator from outside it found (parse and importSrc expected)", n)
+	}
+}
